@@ -45,6 +45,7 @@ type Prog struct {
 	facts     map[string]interface{} // memoised shared analyses
 	NumFiles  int
 	LoadNotes []string
+	cellVal   map[*ssa.FreeVar]ssa.Value // promoted read-only captured variables (cells.go)
 }
 
 // Load type-checks /repo's four library packages from the working tree and builds SSA.
@@ -133,6 +134,7 @@ func Load(cfg Config) (*Prog, error) {
 		p.FuncList = append(p.FuncList, f)
 	}
 	sort.Slice(p.FuncList, func(i, j int) bool { return p.nameOf[p.FuncList[i]] < p.nameOf[p.FuncList[j]] })
+	p.promoteCells()
 	return p, nil
 }
 
